@@ -231,9 +231,29 @@ fn drain(f: &mut File, out: &mut Vec<u8>) {
 
 pub const CHILD_PATTERN: &str = "{h({l})} {m} [{h({(x{l}y)})}]|{h({m}):.3}|{h({l}):>7}{n}";
 
-fn expected_output(colour: bool, abrupt: bool) -> Vec<u8> {
+fn expected_output(colour: bool, abrupt: bool, newline_inside_highlight: bool) -> Vec<u8> {
     let mut out = vec![];
     for lvl in crate::routing::LEVELS {
+        if newline_inside_highlight {
+            // pattern "{h({m}{n})}": the reset comes after the newline
+            let style: Option<Vec<u8>> = match lvl {
+                Level::Error => Some(sgr(Some(1), None, Some(true))),
+                Level::Warn => Some(sgr(Some(3), None, None)),
+                Level::Info => Some(sgr(Some(2), None, None)),
+                Level::Trace => Some(sgr(Some(6), None, None)),
+                Level::Debug => None,
+            };
+            if colour {
+                if let Some(s) = &style {
+                    out.extend_from_slice(s);
+                }
+            }
+            out.extend_from_slice(format!("msg-{}\n", lvl.to_string().to_lowercase()).as_bytes());
+            if colour && style.is_some() {
+                out.extend_from_slice(b"\x1b[0m");
+            }
+            continue;
+        }
         let style: Option<Vec<u8>> = match lvl {
             Level::Error => Some(sgr(Some(1), None, Some(true))),
             Level::Warn => Some(sgr(Some(3), None, None)),
@@ -276,7 +296,9 @@ pub fn child_main(args: &[String]) -> i32 {
     let abrupt = args.get(3).map(|s| s == "1").unwrap_or(false);
     // abrupt: no record ends in a newline and the process ends with _exit: whatever an append left in a
     // user-space buffer never reaches the stream
-    let pattern = if abrupt { CHILD_PATTERN.replace("{n}", ";") } else { CHILD_PATTERN.to_owned() };
+    // (half of the abrupt runs use a pattern whose newline sits inside the highlight group: the last bytes of a
+    // record are then the reset sequence, after the newline)
+    let pattern = if abrupt && tty_only_first { "{h({m}{n})}".to_owned() } else if abrupt { CHILD_PATTERN.replace("{n}", ";") } else { CHILD_PATTERN.to_owned() };
     let b = ConsoleAppender::builder().encoder(Box::new(PatternEncoder::new(&pattern)));
     // the builder's setters commute
     let app = if tty_only_first { b.tty_only(tty_only).target(target).build() } else { b.target(target).tty_only(tty_only).build() };
@@ -649,7 +671,7 @@ fn console_case(rep: &mut Report, idx: u64) {
     }
     rep.count("console_children", 1);
     let show = |b: &[u8]| String::from_utf8_lossy(b).replace('\x1b', "ESC");
-    let want: Vec<u8> = if writes { expected_output(colour, abrupt) } else { vec![] };
+    let want: Vec<u8> = if writes { expected_output(colour, abrupt, abrupt && tty_only_first) } else { vec![] };
     if !got_other.is_empty() {
         rep.violation("C18:wrote-to-the-other-stream", json!({"case": d, "other_stream": show(&got_other)}));
     }
